@@ -183,6 +183,19 @@ _add("C18", "The order is also (re)configured after construction through the pub
 _add("C20", "Clients whose server refuses connections are a further entry point (17 operations in rotation): an illegal key is still MemcacheIllegalInputError, not the connection error.")
 
 _add("C08", "Every other public data method of PooledClient runs in two-thread programs against a read, a failing read and itself, each on the calling thread's own items with the undisturbed result demanded. The pool module's threading global is shadowed by scheduler-aware locks, so a pool that is not given (or ignores) lock_generator is still schedulable, and the PooledClient a HashClient(use_pooling=<truthy>) builds is explored with preemptions through the HashClient.")
+_add("C02", "Batches that are large in bytes (tens to hundreds of KiB of well-formed commands before a bad key or an unencodable value; 300-600 long keys in one fetch/delete) and values beyond the server's item limit (still the caller's command, with or without noreply) are part of the grid.")
+_add("C03", "Cut schedules are also aligned with what the stream contains: 0..8 bytes into every protocol keyword / end token occurring in it, alone and combined with cuts at the end of that line and at receive-size boundaries; big raw_command replies carry protocol keywords past the first receive buffer.")
+_add("C05", "Wide histories put 127..1025 keys into one set_many / get_many / gets_many / delete_many (noreply on and off) on every stack.")
+_add("C07", "One reply fault is a complete, well-formed item for a key nobody asked for.")
+_add("C11", "Two threads look keys up on one hasher (fresh, just after add_node/remove_node, seeded through the constructor) under the deterministic scheduler at line granularity inside RendezvousHash, every schedule within the preemption bound: each answer must be the rule's winner.")
+_add("C12", "Key collections are lists, tuples, generators or iterators.")
+_add("C13", "A dual-stack configuration gives every server name two resolved addresses: one attempt on a server that is down is still one contact.")
+_add("C14", "Seeds outside 0..2^32-1 (negative, 64-bit) keep meaning their low 32 bits, in murmur3_32 and through RendezvousHash(seed=...) (release stability).")
+_add("C15", "Values that are themselves valid zlib/bz2/lzma/gzip streams (level-0 streams are still compressible, so every codec flags them).")
+_add("C16", "Configurations with only a legacy serializer or only a legacy deserializer.")
+_add("C18", "A cas token handed out by a fallback cache through gets/gets_many is then used in cas() (first cache only, twice); writes while the primary raises (8 exception kinds) must not turn up at a fallback cache; the order is reconfigured between session calls; two threads share one fresh FallbackClient under the deterministic scheduler (every schedule within the preemption bound, line granularity inside fallback.py).")
+_add("C19", "Per scenario options: DEBUG logging for the library with a handler that formats every record, a TLS context (every connect / send / receive - the discovery connection included - must go through the wrapper), a server added by hand through add_server() before a reconfiguration (retired like any node that is not advertised); endpoints answering with an empty or garbled payload must leave no open connection and a usable client.")
+_add("C20", "The mapping protocol (client[key], client[key] = v, del client[key]) is among the operations.")
 NOT_YET = "check not built yet in this round (runtime-monitoring design in DESIGN.md §2); will be claimed once its monitor exists"
 
 manifest = {
